@@ -326,6 +326,7 @@ impl<T> Pool<T> {
         self.inner.semaphore.add_permits(1);
         // The pool might have been closed in the meantime: make sure a closed
         // pool doesn't keep the object.
+        verif_point!("uadd.cleanup");
         self.inner.clean_up();
     }
 
